@@ -1009,3 +1009,18 @@ fn iterate_over_extension_header<MHEM: MandatoryHeaderExtensionManager>(
         header_ext_len: offset,
     })
 }
+
+#[cfg(feature = "verif-hooks")]
+impl<T: GseDecapMemory, C: CrcCalculator, MHEM: MandatoryHeaderExtensionManager>
+    Decapsulator<T, C, MHEM>
+{
+    /// Verification hook: set the remembered label.
+    pub fn verif_set_last_label(&mut self, label: Option<Label>) {
+        self.last_label = label;
+    }
+
+    /// Verification hook: observe the remembered label.
+    pub fn verif_last_label(&self) -> Option<Label> {
+        self.last_label
+    }
+}
